@@ -246,6 +246,7 @@ func (o op) coqOp() string {
 
 // ---------------------------------------------------------------- observers
 
+const sec = int64(1000000000)
 const nActors = 13 // observers look at actor00..actor12
 const nRand = 7    // the random stream uses at most actor00..actor06
 
@@ -355,12 +356,13 @@ func votesCoq(ctx sdk.Context, k govkeeper.Keeper, id uint64) string {
 // ---------------------------------------------------------------- main
 
 type jhist struct {
-	Seed  uint64 `json:"seed"`
-	Index int    `json:"index"`
-	Kind  string `json:"kind"`
-	Spec  *bspec `json:"boundary,omitempty"`
-	World string `json:"initial_world"`
-	Ops   []op   `json:"ops"`
+	Seed  uint64      `json:"seed"`
+	Index int         `json:"index"`
+	Kind  string      `json:"kind"`
+	Spec  *bspec      `json:"boundary,omitempty"`
+	Scen  *scenResult `json:"scenario,omitempty"`
+	World string      `json:"initial_world"`
+	Ops   []op        `json:"ops"`
 }
 
 // ---------------------------------------------------------------- boundary stream
@@ -375,6 +377,7 @@ type bspec struct {
 	Yes     int    `json:"yes"`
 	Veto    int    `json:"veto"`
 	Dynamic bool   `json:"dynamic_voter_proposal,omitempty"` // the electorate are the owners of a spending pool
+	ShiftNs int64  `json:"block_shift_ns"`                   // blocks at voting end / enactment end shifted by this many nanoseconds
 	Rotate  int    `json:"rotate_last_voter,omitempty"`      // 1: the last voter rotates its address (x/recovery) between vote and tally; 2: and votes again afterwards
 }
 
@@ -612,7 +615,8 @@ func main() {
 			jh.Kind = "boundary"
 		}
 
-		t, h := int64(1000+r.Intn(50)), int64(2+r.Intn(5))
+		// block times in NANOSECONDS
+		t, h := int64(1000+r.Intn(50))*sec+[]int64{0, 0, 1, 500000000, 999999999}[r.Intn(5)], int64(2+r.Intn(5))
 		nextID := int64(1)
 		var steps []string
 		voted := map[int64][]int64{}
@@ -629,7 +633,7 @@ func main() {
 
 		doOp := func(o op) {
 			c, write := hctx.CacheContext()
-			c = c.WithBlockTime(time.Unix(o.T, 0).UTC()).WithBlockHeight(o.H).WithEventManager(sdk.NewEventManager())
+			c = c.WithBlockTime(time.Unix(0, o.T).UTC()).WithBlockHeight(o.H).WithEventManager(sdk.NewEventManager())
 			var err error
 			newID := int64(0)
 			applyLog = nil
@@ -884,9 +888,23 @@ func main() {
 					doOp(op{Kind: "vote", T: t, H: h, Who: 12, ID: 1, Opt: opt})
 				}
 			}
-			for b := int64(0); b < 4; b++ {
-				doOp(op{Kind: "end", T: t + b, H: h + b})
+			// the blocks around the voting end and the enactment end are shifted by -1ns / 0 / +1ns
+			shift := int64((spec.N+spec.Capable+spec.Veto+spec.Votes+spec.Yes+hi)%3) - 1
+			spec.ShiftNs = shift
+			doOp(op{Kind: "end", T: t, H: h})
+			if spec.Votes > 0 { // voter 0 repeats its vote at the shifted end time: admissible iff not after the end
+				opt0 := int64(3)
+				if spec.Veto > 0 {
+					opt0 = 4
+				} else if spec.Votes-spec.Yes <= 0 {
+					opt0 = 1
+				}
+				doOp(op{Kind: "vote", T: t + sec + shift, H: h + 1, Who: 0, ID: 1, Opt: opt0})
 			}
+			doOp(op{Kind: "end", T: t + sec + shift, H: h + 1})
+			doOp(op{Kind: "end", T: t + 2*sec + shift, H: h + 2})
+			doOp(op{Kind: "end", T: t + 3*sec, H: h + 3})
+			doOp(op{Kind: "end", T: t + 4*sec, H: h + 4})
 		} else {
 			nblocks := 8 + r.Intn(14)
 			for b := 0; b < nblocks; b++ {
@@ -913,7 +931,7 @@ func main() {
 						if r.Chance(85) { // prefer proposals whose voting window is still open
 							var open []int64
 							for j := int64(1); j < nextID; j++ {
-								if pr, ok := k.GetProposal(hctx, uint64(j)); ok && pr.VotingEndTime.Unix() >= t {
+								if pr, ok := k.GetProposal(hctx, uint64(j)); ok && pr.VotingEndTime.UnixNano() >= t {
 									open = append(open, j)
 								}
 							}
@@ -972,20 +990,41 @@ func main() {
 				}
 				doOp(op{Kind: "end", T: t, H: h})
 				// next block: equal times, one second, the configured periods, long gaps
+				t0 := t
 				switch x := r.Intn(100); {
-				case x < 15:
-				case x < 55:
-					t += 1
-				case x < 70:
-					t += int64(1 + r.Intn(12))
+				case x < 12:
+				case x < 45:
+					t += sec
+				case x < 58:
+					t += int64(1+r.Intn(12)) * sec
+				case x < 66:
+					t += int64(p.MinimumProposalEndTime) * sec
+				case x < 72:
+					t += int64(p.ProposalEnactmentTime) * sec
 				case x < 80:
-					t += int64(p.MinimumProposalEndTime)
-				case x < 88:
-					t += int64(p.ProposalEnactmentTime)
-				case x < 96:
-					t += int64(r.Intn(400))
+					t += int64(r.Intn(400)) * sec
+				case x < 84:
+					t += 100000 * sec
 				default:
-					t += 100000
+					// exactly at / one nanosecond around the voting end or enactment end of some proposal
+					if nextID > 1 {
+						if pr, ok := k.GetProposal(hctx, uint64(1+r.Intn(int(nextID-1)))); ok {
+							target := pr.VotingEndTime.UnixNano()
+							if r.Bool() {
+								target = pr.EnactmentEndTime.UnixNano()
+							}
+							target += int64(r.Intn(3)) - 1
+							if target > t {
+								t = target
+							}
+						}
+					}
+				}
+				if r.Chance(25) { // sub-second parts
+					t += []int64{-1, 1, 500000000, -999999999, 999999999}[r.Intn(5)]
+				}
+				if t < t0 {
+					t = t0
 				}
 				h++
 				if r.Chance(7) {
@@ -995,6 +1034,14 @@ func main() {
 		}
 		coq.WriteString(fmt.Sprintf("CHist %s %s\n", w0, hx.List(steps)))
 		js = append(js, jh)
+	}
+
+	// ---- scripted atomicity scenarios on real multi-step handlers of other modules
+	for _, sr := range runScenarios(app, base) {
+		sr := sr
+		coq.WriteString(sr.coq() + "\n")
+		js = append(js, jhist{Seed: seed, Index: len(js), Kind: "scenario", Scen: &sr})
+		dist.Inc("scenario:" + map[bool]string{true: "handler_ok", false: "handler_failed"}[sr.OK])
 	}
 
 	var f strings.Builder
